@@ -84,6 +84,73 @@ theorem lin_avg_ge (e x y z : Nat) (he : 1 ≤ e) (he2 : e < 255)
   rw [← Nat.add_mul, ← Nat.mul_assoc]
   exact Nat.mul_le_mul_right K (by omega)
 
+theorem lin_avg_lt (e x y z : Nat) (he : 1 ≤ e) (he2 : e < 255)
+    (hx1 : e * 8388608 ≤ x) (hx2 : x ≤ (e + 1) * 8388608)
+    (hy1 : e * 8388608 ≤ y) (hy2 : y ≤ (e + 1) * 8388608)
+    (hz1 : e * 8388608 ≤ z) (hz2 : z ≤ (e + 1) * 8388608)
+    (h : x + y < 2 * z) : F32.mag x + F32.mag y < 2 * F32.mag z := by
+  rw [F32.mag_lin x e he hx1 hx2 (by omega), F32.mag_lin y e he hy1 hy2 (by omega),
+    F32.mag_lin z e he hz1 hz2 (by omega)]
+  have hK : 0 < 2 ^ (e - 1) := Nat.two_pow_pos _
+  generalize 2 ^ (e - 1) = K at hK
+  rw [← Nat.add_mul, ← Nat.mul_assoc]
+  exact Nat.mul_lt_mul_of_pos_right (by omega) hK
+
+theorem lin_avg_gt (e x y z : Nat) (he : 1 ≤ e) (he2 : e < 255)
+    (hx1 : e * 8388608 ≤ x) (hx2 : x ≤ (e + 1) * 8388608)
+    (hy1 : e * 8388608 ≤ y) (hy2 : y ≤ (e + 1) * 8388608)
+    (hz1 : e * 8388608 ≤ z) (hz2 : z ≤ (e + 1) * 8388608)
+    (h : 2 * z < x + y) : 2 * F32.mag z < F32.mag x + F32.mag y := by
+  rw [F32.mag_lin x e he hx1 hx2 (by omega), F32.mag_lin y e he hy1 hy2 (by omega),
+    F32.mag_lin z e he hz1 hz2 (by omega)]
+  have hK : 0 < 2 ^ (e - 1) := Nat.two_pow_pos _
+  generalize 2 ^ (e - 1) = K at hK
+  rw [← Nat.add_mul, ← Nat.mul_assoc]
+  exact Nat.mul_lt_mul_of_pos_right (by omega) hK
+
+/-- Round-to-nearest with ties to even, as a bracket: in addition to `Bracket`, an odd result pattern is
+never produced at a midpoint (both midpoint inequalities are strict). -/
+def BracketEven (a r : Nat) : Prop :=
+  Bracket a r ∧
+  (r % 2 = 1 → F16.mag (r - 1) + F16.mag r < 2 * F32.mag a ∧ 2 * F32.mag a < F16.mag r + F16.mag (r + 1))
+
+/-- In the range of the normal halves the value is piecewise linear in the pattern, so "within 4096 patterns
+of the embedded half `(r + 112·1024)·8192`" is "between the two midpoints". -/
+theorem bracket_close (a r : Nat) (ha : 947912704 ≤ a) (hr1 : 1024 ≤ r) (hr2 : r < 31744)
+    (h1 : (r + 114688) * 8192 ≤ a + 4096) (h2 : a ≤ (r + 114688) * 8192 + 4096)
+    (hodd : r % 2 = 1 → (r + 114688) * 8192 < a + 4096 ∧ a < (r + 114688) * 8192 + 4096) :
+    BracketEven a r := by
+  have s1 := F16.mag_strict (r - 1) r (by lia) (by lia)
+  have s2 := F16.mag_strict r (r + 1) (by lia) (by lia)
+  have emb := embed r hr1 (by lia)
+  by_cases hge : (r + 114688) * 8192 ≤ a
+  · -- a at or above the embedded half: the lower side is trivial, the upper side is linear interpolation
+    have m2 : F16.mag r ≤ F32.mag a := by
+      rw [← emb]; exact F32.mag_mono _ _ hge (by lia)
+    have up : 2 * F32.mag a ≤ F16.mag r + F16.mag (r + 1) := by
+      rw [← emb, ← embed (r + 1) (by lia) (by lia)]
+      exact lin_avg_ge ((r + 114688) * 8192 / 8388608) _ _ _ (by lia) (by lia)
+        (by lia) (by lia) (by lia) (by lia) (by lia) (by lia) (by lia)
+    refine ⟨⟨Or.inr (by lia), up⟩, fun ho => ⟨by lia, ?_⟩⟩
+    have hs := (hodd ho).2
+    rw [← emb, ← embed (r + 1) (by lia) (by lia)]
+    exact lin_avg_gt ((r + 114688) * 8192 / 8388608) _ _ _ (by lia) (by lia)
+      (by lia) (by lia) (by lia) (by lia) (by lia) (by lia) (by lia)
+  · -- a below the embedded half (then r ≥ 1025): the upper side is trivial
+    have hr3 : 1025 ≤ r := by lia
+    have m2 : F32.mag a ≤ F16.mag r := by
+      rw [← emb]; exact F32.mag_mono _ _ (by lia) (by lia)
+    have emb1 := embed (r - 1) (by lia) (by lia)
+    have lo : F16.mag (r - 1) + F16.mag r ≤ 2 * F32.mag a := by
+      rw [← emb, ← emb1]
+      exact lin_avg_le ((r - 1 + 114688) * 8192 / 8388608) _ _ _ (by lia) (by lia)
+        (by lia) (by lia) (by lia) (by lia) (by lia) (by lia) (by lia)
+    refine ⟨⟨Or.inr lo, by lia⟩, fun ho => ⟨?_, by lia⟩⟩
+    have hs := (hodd ho).1
+    rw [← emb, ← emb1]
+    exact lin_avg_lt ((r - 1 + 114688) * 8192 / 8388608) _ _ _ (by lia) (by lia)
+      (by lia) (by lia) (by lia) (by lia) (by lia) (by lia) (by lia)
+
 /-! ### region A: binary32 exponent field ≥ 113 (the scaled product is normal) -/
 
 theorem packKey_affine (t : Nat) (h1 : 231424 ≤ t) (h2 : t < 522240) :
@@ -170,12 +237,12 @@ theorem chkKey_spec (t : Nat) (h : chkKey t = true) (ht : t < 522240) :
   | inr hl => exact Or.inr (by lia)
 
 /-- Table entry for the binary16 pattern `h`: `unpack` is exact and keeps the sign, `pack ∘ unpack` is the
-identity on non-NaN patterns, NaN stays NaN, infinity stays infinity (also for the round-to-nearest-even
-packer of the Python target). -/
+identity on non-NaN patterns, NaN stays NaN, infinity stays infinity (also for the repaired packer
+`packRneC` and for the round-to-nearest-even packer `packRne` of the Python target). -/
 def chkHalf (h : Nat) : Bool :=
   let u := unpack h
   Nat.blt u 4294967296 && Nat.beq (u / 2147483648) (h / 32768) &&
-  (bif F16.isNaN h then F32.isNaN u && F16.isNaN (pack u) && F16.isNaN (packRne u)
-   else Nat.beq (pack u) h && Nat.beq (packRne u) h &&
+  (bif F16.isNaN h then F32.isNaN u && F16.isNaN (pack u) && F16.isNaN (packRne u) && F16.isNaN (packRneC u)
+   else Nat.beq (pack u) h && Nat.beq (packRne u) h && Nat.beq (packRneC u) h &&
         (bif F16.isInf h then F32.isInf u else F32.isFinite u && Nat.beq (F32.mag u) (F16.mag h)))
 end NunavutVerif.Float16
